@@ -16,6 +16,7 @@ warnings.filterwarnings("ignore")
 
 from kmip.core import enums, exceptions, primitives, attributes as cattr, objects as cobjects, secrets  # noqa: E402
 from kmip.core import policy as core_policy  # noqa: E402
+from kmip.core import misc as cmisc  # noqa: E402
 from kmip.core.factories import attributes as attr_factory  # noqa: E402
 from kmip.core.factories.attribute_values import AttributeValueFactory  # noqa: E402
 from kmip.core.messages import contents, messages, payloads  # noqa: E402
@@ -150,6 +151,20 @@ def build_secret(o):
     val = bytes.fromhex(o["value"])
     from kmip.core.factories.secrets import SecretFactory
     sf = SecretFactory()
+    if ot in (enums.ObjectType.SYMMETRIC_KEY, enums.ObjectType.PUBLIC_KEY, enums.ObjectType.PRIVATE_KEY) and \
+            (o["alg"] is None or o["len"] is None):
+        # a key block without algorithm / length (both optional on the wire)
+        kb = cobjects.KeyBlock(
+            key_format_type=cmisc.KeyFormatType(enums.KeyFormatType(o["format"])),
+            key_compression_type=None,
+            key_value=cobjects.KeyValue(cobjects.KeyMaterial(val)),
+            cryptographic_algorithm=None if o["alg"] is None else cattr.CryptographicAlgorithm(
+                enums.CryptographicAlgorithm(o["alg"])),
+            cryptographic_length=None if o["len"] is None else cattr.CryptographicLength(o["len"]),
+            key_wrapping_data=None)
+        cls = {enums.ObjectType.SYMMETRIC_KEY: secrets.SymmetricKey, enums.ObjectType.PUBLIC_KEY: secrets.PublicKey,
+               enums.ObjectType.PRIVATE_KEY: secrets.PrivateKey}[ot]
+        return cls(kb)
     if ot in (enums.ObjectType.SYMMETRIC_KEY, enums.ObjectType.PUBLIC_KEY, enums.ObjectType.PRIVATE_KEY):
         return sf.create(ot, {"cryptographic_algorithm": enums.CryptographicAlgorithm(o["alg"]),
                               "cryptographic_length": o["len"],
